@@ -815,4 +815,110 @@ Proof.
   apply residual_to_backward; [lra|]. now apply H.
 Qed.
 
+(* 3.8  in the measure of the failing-input search (driver/c10.py): |p(x)| / (max |a_k| max(1,|x|)^2) <= 48 eps *)
+Theorem quadratic_search_measure_lemma (a b c : C) (M : R) : a <> C0 -> eps <= / 100 ->
+  Cmod a <= M -> Cmod b <= M -> Cmod c <= M ->
+  exists r0 r1 : C, poly_solve RoundRA [c; b; a] false = Ok ([r0; r1], []) /\
+    forall x : C, x = r0 \/ x = r1 ->
+      Cmod (qval a b c x) <= 48 * eps * (M * (Rmax 1 (Cmod x) * Rmax 1 (Cmod x))).
+Proof.
+  intros Ha He Ma Mb Mc. destruct (roots_deg2_residual_lemma a b c Ha He) as (r0 & r1 & E & H).
+  exists r0, r1. split; [exact E|]. intros x Hx. specialize (H x Hx).
+  eapply Rle_trans; [exact H|].
+  replace (48 * eps * (M * (Rmax 1 (Cmod x) * Rmax 1 (Cmod x))))
+    with (16 * eps * (3 * (M * (Rmax 1 (Cmod x) * Rmax 1 (Cmod x))))) by ring.
+  apply Rmult_le_compat_l; [lra|]. unfold qsize.
+  pose proof (Cmod_ge_0 a). pose proof (Cmod_ge_0 b). pose proof (Cmod_ge_0 c). pose proof (Cmod_ge_0 x).
+  pose proof (Rmax_l 1 (Cmod x)). pose proof (Rmax_r 1 (Cmod x)).
+  set (m := Rmax 1 (Cmod x)) in *. set (t := Cmod x) in *.
+  assert (t * t <= m * m) by (apply Rmult_le_compat; lra).
+  assert (t <= m * m) by nra. assert (1 <= m * m) by nra.
+  assert (0 <= M) by lra.
+  assert (Cmod a * t * t <= M * (m * m)) by (rewrite Rmult_assoc; apply Rmult_le_compat; nra).
+  assert (Cmod b * t <= M * (m * m)) by (apply Rmult_le_compat; nra).
+  assert (Cmod c <= M * (m * m)) by nra.
+  lra.
+Qed.
+
 End RoundArith.
+
+(* ---------------------------------------------------------------- 4. the same statements with the arithmetic bundled *)
+(* every operation of the two-sorted arithmetic that is not fixed above *)
+Record RoundOps := {
+  o_radd : R -> R -> R; o_rsub : R -> R -> R; o_rmul : R -> R -> R; o_rdiv : R -> R -> R; o_rsqrt : R -> R;
+  o_rfrac : list R; o_kabs : C -> R; o_kabsA : C -> C; o_kdivr : C -> R -> C; o_kltb : C -> C -> bool; o_kleb : C -> C -> bool;
+  o_pow : C -> C -> C; o_polar : R -> R -> C;
+  o_add : C -> C -> C; o_sub : C -> C -> C; o_mul : C -> C -> C; o_div : C -> C -> C;
+  o_scale : C -> R -> C; o_sqrt : C -> C }.
+
+(* the standard model of rounding, normwise, for the six operations quadratic_solve rounds *)
+Definition std_model (eps : R) (O : RoundOps) : Prop :=
+  (forall x y : C, Cmod (o_add O x y - (x + y))%C <= eps * Cmod (x + y)%C) /\
+  (forall x y : C, Cmod (o_sub O x y - (x - y))%C <= eps * Cmod (x - y)%C) /\
+  (forall x y : C, Cmod (o_mul O x y - x * y)%C <= eps * Cmod (x * y)%C) /\
+  (forall x y : C, y <> C0 -> Cmod (o_div O x y - x / y)%C <= eps * Cmod (x / y)%C) /\
+  (forall (z : C) (r : R), Cmod (o_scale O z r - z * RtoC r)%C <= eps * Cmod (z * RtoC r)%C) /\
+  (forall z : C, exists w : C, (w * w)%C = z /\ Cmod (o_sqrt O z - w)%C <= eps * Cmod w).
+
+Definition RoundRAo (eps : R) (O : RoundOps) : RootArith :=
+  RoundRA eps (o_radd O) (o_rsub O) (o_rmul O) (o_rdiv O) (o_rsqrt O) (o_rfrac O) (o_kabs O) (o_kabsA O) (o_kdivr O)
+          (o_kltb O) (o_kleb O) (o_pow O) (o_polar O) (o_add O) (o_sub O) (o_mul O) (o_div O) (o_scale O) (o_sqrt O).
+
+Lemma linear_root_backward_error_lemma (eps : R) (O : RoundOps) (c0 c1 : C) :
+  0 <= eps -> std_model eps O -> c1 <> C0 ->
+  exists r d : C, poly_solve (RoundRAo eps O) [c0; c1] false = Ok ([r], []) /\
+    Cmod d <= eps /\ (c1 * r + c0 * (C1 + d))%C = C0.
+Proof.
+  intros He (_ & _ & _ & Hd & _ & _) H1. now apply linear_root_backward_lemma.
+Qed.
+
+Lemma quadratic_residual_bound_lemma (eps : R) (O : RoundOps) (a b c : C) :
+  0 <= eps <= / 100 -> std_model eps O -> a <> C0 ->
+  exists r0 r1 : C, poly_solve (RoundRAo eps O) [c; b; a] false = Ok ([r0; r1], []) /\
+    forall x : C, x = r0 \/ x = r1 ->
+      Cmod (a * x * x + b * x + c)%C <= 16 * eps * (Cmod a * Cmod x * Cmod x + Cmod b * Cmod x + Cmod c).
+Proof.
+  intros [He0 He] (Ha & Hs & Hm & Hd & Hsc & Hsq) Hnz. now apply roots_deg2_residual_lemma.
+Qed.
+
+Lemma quadratic_backward_error_lemma (eps : R) (O : RoundOps) (a b c : C) :
+  0 <= eps <= / 100 -> std_model eps O -> a <> C0 ->
+  exists r0 r1 : C, poly_solve (RoundRAo eps O) [c; b; a] false = Ok ([r0; r1], []) /\
+    forall x : C, x = r0 \/ x = r1 ->
+      exists da db dc : C,
+        Cmod da <= 16 * eps * Cmod a /\ Cmod db <= 16 * eps * Cmod b /\ Cmod dc <= 16 * eps * Cmod c /\
+        ((a + da) * x * x + (b + db) * x + (c + dc))%C = C0.
+Proof.
+  intros [He0 He] (Ha & Hs & Hm & Hd & Hsc & Hsq) Hnz. now apply quadratic_backward_lemma.
+Qed.
+
+Lemma quadratic_search_measure_bound_lemma (eps : R) (O : RoundOps) (a b c : C) (M : R) :
+  0 <= eps <= / 100 -> std_model eps O -> a <> C0 -> Cmod a <= M -> Cmod b <= M -> Cmod c <= M ->
+  exists r0 r1 : C, poly_solve (RoundRAo eps O) [c; b; a] false = Ok ([r0; r1], []) /\
+    forall x : C, x = r0 \/ x = r1 ->
+      Cmod (a * x * x + b * x + c)%C <= 48 * eps * (M * (Rmax 1 (Cmod x) * Rmax 1 (Cmod x))).
+Proof.
+  intros [He0 He] (Ha & Hs & Hm & Hd & Hsc & Hsq) Hnz. now apply quadratic_search_measure_lemma.
+Qed.
+
+(* the repaired branch `q == zero`: taken if and only if b = c = 0, and then [0; 0] is returned -- the exact roots of a x^2 *)
+Lemma quadratic_q0_backward_lemma (eps : R) (O : RoundOps) (a b c : C) :
+  0 <= eps <= / 100 -> std_model eps O -> a <> C0 ->
+  let q := q_q (o_add O) (o_sub O) (o_mul O) (o_scale O) (o_sqrt O) a b c in
+  (q = C0 <-> b = C0 /\ c = C0) /\
+  (q = C0 -> poly_solve (RoundRAo eps O) [c; b; a] false = Ok ([C0; C0], [])) /\
+  (q <> C0 -> exists r0 r1 d : C, poly_solve (RoundRAo eps O) [c; b; a] false = Ok ([r0; r1], []) /\
+               Cmod d <= 2 * eps + eps * eps /\ (r0 * r1)%C = (c / a * (C1 + d))%C).
+Proof.
+  intros [He0 He] (Ha & Hs & Hm & Hd & Hsc & Hsq) Hnz q.
+  destruct (quadratic_q0_round_lemma eps He0 (o_radd O) (o_rsub O) (o_rmul O) (o_rdiv O) (o_rsqrt O) (o_rfrac O) (o_kabs O)
+              (o_kabsA O) (o_kdivr O) (o_kltb O) (o_kleb O) (o_pow O) (o_polar O) (o_add O) (o_sub O) (o_mul O) (o_div O)
+              (o_scale O) (o_sqrt O) Ha Hs Hm Hd Hsc Hsq a b c Hnz He) as [I Z].
+  split; [exact I|]. split.
+  - intros Zq. unfold RoundRAo. rewrite poly_solve_deg2_eq, (Z Zq). reflexivity.
+  - intros NZ.
+    destruct (quadratic_product_lemma eps He0 (o_radd O) (o_rsub O) (o_rmul O) (o_rdiv O) (o_rsqrt O) (o_rfrac O) (o_kabs O)
+              (o_kabsA O) (o_kdivr O) (o_kltb O) (o_kleb O) (o_pow O) (o_polar O) (o_add O) (o_sub O) (o_mul O) (o_div O)
+              (o_scale O) (o_sqrt O) Hd a b c Hnz NZ) as (r0 & r1 & d & E & Hdd & P).
+    exists r0, r1, d. split; [|split; assumption]. unfold RoundRAo. rewrite poly_solve_deg2_eq, E. reflexivity.
+Qed.
